@@ -71,7 +71,8 @@ def gen_config(rng):
     if rng.random() < 0.3:
         init = init[:rng.randrange(0, depth + 1)]
     cfg = {"shape": shape, "depth": depth, "init": init, "domains": doms, "wports": wports, "rports": rports,
-           "resets": rng.random() < 0.3}
+           "resets": rng.random() < 0.3,
+           "init_via": rng.choice(["constructor", "constructor", "slice", "strided-slices", "rows", "setter"])}
     if rng.random() < 0.35:
         # another memory with write ports of its own elaborated in the same module *before* this one (port
         # numbering of one memory must not leak into the other's transparency masks)
@@ -172,7 +173,23 @@ def build(cfg):
         setattr(m.domains, name, cd)
         b.cds[name] = cd
     shape = real_shape(cfg["shape"])
-    mem = Memory(shape=shape, depth=cfg["depth"], init=[real_init(cfg["shape"], v) for v in cfg["init"]])
+    rows = [real_init(cfg["shape"], v) for v in cfg["init"]]
+    via = cfg.get("init_via", "constructor")
+    if via == "constructor":
+        mem = Memory(shape=shape, depth=cfg["depth"], init=rows)
+    else:
+        # the same declared contents stored another way: slice assignment, per-row assignment, or the init setter
+        mem = Memory(shape=shape, depth=cfg["depth"], init=[])
+        if via == "slice":
+            mem.init[0:len(rows)] = rows
+        elif via == "strided-slices":
+            mem.init[0:len(rows):2] = rows[0::2]
+            mem.init[1:len(rows):2] = rows[1::2]
+        elif via == "rows":
+            for i, r_ in enumerate(rows):
+                mem.init[i] = r_
+        else:
+            mem.init = rows
     if cfg.get("sibling_write_ports"):
         from amaranth.hdl import Signal
         aux = Memory(shape=4, depth=2, init=[5, 9])
